@@ -1,5 +1,5 @@
 (* Property C10 — path addressing is exact.  Only statements and [exact]; proofs live in Proofs/KeyPath*.v, Proofs/Hier*.v. *)
-From PG Require Import Common.Tactics Model.KeyPath Model.Hier Model.KeyPathMachine Gen.KeyPathSrc Proofs.KeyPathMachineLink
+From PG Require Import Common.Tactics Model.KeyPath Model.Hier Model.KeyPathMachine Gen.KeyPathSrc Proofs.KeyPathMachineLink Model.KeyPathSetMachine Gen.KeyPathSetSrc Proofs.KeyPathSetMachineLink
   Proofs.KeyPathParse Proofs.KeyPathArith Proofs.KeyPathOrder
   Proofs.KeyPathSetBase Proofs.KeyPathSetIter Proofs.KeyPathSetThm Proofs.KeyPathSetEq Proofs.KeyPathSetInter Proofs.HierTraverse Proofs.HierQuery Proofs.HierFlatten Proofs.HierStop Proofs.HierMerge Proofs.HierCanon Proofs.KeyPathExamples.
 
@@ -109,6 +109,19 @@ Theorem C10_set_dollar_refuted :
   exists t, add_go {| q_dollar := true |} false [KStr [c_dollar]] (TDict []) = Some (TDict t, true) /\ paths t = [[]] /\ contains_go {| q_dollar := true |} [] (TDict t) = Some true.
 Proof. exact dollar_witness. Qed.
 Print Assumptions C10_set_dollar_refuted.
+
+(*    Second tie for the set algebra.  Gen/KeyPathSetSrc.v is regenerated on every run from the source of the nested
+      helpers _remove_same (difference_update), _remove_diff (intersection_update) and _merge (update): the per-entry
+      decision of each loop as data (the translator also checks the loop frames, the deferred deletion, the deep copy in
+      _merge, copy + in-place update in difference / intersection / union, and that copy() is a deep copy).  Interpreting
+      that data gives exactly the model's diff_node / inter_node / merge_node, to which C10_set_ops applies. *)
+Theorem C10_src_set_kernels :
+  (forall t s, fkernel (ks_same src_kps) t s = diff_node t s) /\
+  (forall t s, fkernel (ks_diff src_kps) t s = inter_node t s) /\
+  (forall t s, mkernel (ks_merge src_kps) t s = merge_node t s) /\
+  ks_marker src_kps = [c_dollar].
+Proof. exact src_kps_kernels. Qed.
+Print Assumptions C10_src_set_kernels.
 
 (*    s1 == s2 (dict equality of the tries) holds exactly when the two sets have the same members. *)
 Theorem C10_set_eq : forall q t s, twf q t -> twf q s ->
